@@ -17,4 +17,4 @@ def run(ctx):
         "separately, by UnmarshalJSONStrict",
     ], must=("defaults-str-bool", "falsy-defaults", "case-twins", "two-packages", "two-packages-reversed",
              "reused-union-orders", "reused-union-orders-reversed", "half-open-ranges", "reused-ref-orders",
-             "optional-defaults", "negative-bounds", "openapi-annotations"))
+             "optional-defaults", "negative-bounds", "openapi-annotations", "double-bounds"))
